@@ -196,6 +196,14 @@ def regime_oracle(regime, par, mode_syms=("beta", "w")):
     return cmp
 
 
+class RegimeRaises(Exception):
+    """the evaluation for the generic mode of a regime ends in a `raise`"""
+
+    def __init__(self, node, ev):
+        super().__init__("raise")
+        self.node, self.ev = node, ev
+
+
 def _consts(ctx, rel):
     try:
         return module_consts(ctx, rel)
@@ -220,6 +228,8 @@ def run_su_coef(ctx, fn, regime, m_none, rb_given=True):
     S = Sem01(ctx, fn, ev_cls=ModeEv, env=env, call=call, inline=inl, consts=_consts(ctx, UTIL), nonnull={"h", "m"},
               cmp=regime_oracle(regime, par), abs_hook=abs_hook)
     ev = S.ev
+    if not ev.returns and ev.raised is not None:
+        raise RegimeRaises(ev.raised, ev)
     if not ev.returns:
         raise AnchorError("get_su_coef has no return on the path of the regime " + regime)
     ret = ev.returns[-1][0]
